@@ -50,7 +50,7 @@ def obsTrace (ρ : Atom → Bool) : List Ev := (exec ρ serveHTTP).trace.filter 
 
 set_option maxRecDepth 100000 in
 /-- THE regenerated obligation: every path of the current skeleton has the shape -/
-theorem serve_shape_paths : (traces (slice keepObs serveHTTP)).all shape = true := by decide
+theorem serve_shape_paths : (traces (slice keepObs serveHTTP)).all shape = true := by decide +kernel
 
 theorem serve_shape (ρ : Atom → Bool) : shape (obsTrace ρ) = true :=
   all_exec_slice serveHTTP keepObs shape serve_shape_paths ρ
